@@ -106,6 +106,19 @@ func Unnest(a Set, attr string) (Set, error) {
 	if !key.Has(attr) {
 		return nil, fmt.Errorf("unnest attr %q not found in relation (%v)", attr, key)
 	}
+	// The attribute to unnest must hold a relation in every tuple.
+	for e := a.Enumerator(); e.MoveNext(); {
+		nested, _ := e.Current().(Tuple).Get(attr)
+		inner, is := nested.(Set)
+		if !is {
+			return nil, fmt.Errorf("unnest attr %q holds %s, not a relation", attr, ValueTypeAsString(nested))
+		}
+		for i := inner.Enumerator(); i.MoveNext(); {
+			if _, is := i.Current().(Tuple); !is {
+				return nil, fmt.Errorf("unnest attr %q holds a set with a non-tuple member %v", attr, i.Current())
+			}
+		}
+	}
 	return Reduce(
 		a,
 		func(value Value) Value {
